@@ -40,6 +40,14 @@ pub fn judge_tx(ctx: &mut Ctx, w: &World, st: &St, t: &PTx, what: &dyn Fn() -> S
             }
         }
     }
+    for p in &st.m.ref_plutus {
+        langs.insert(match w.plutus[*p].language_version().kind() {
+            LanguageKind::PlutusV1 => 1,
+            LanguageKind::PlutusV2 => 2,
+            LanguageKind::PlutusV3 => 3,
+        });
+        ctx.hit("language-only-through-a-referenced-script-outside-inputs");
+    }
     let nothing = t.redeemers.is_empty() && t.datums_span.is_none() && langs.is_empty();
     match (&t.script_data_hash, nothing) {
         (None, true) => ctx.hit("no-script-data"),
